@@ -55,7 +55,7 @@ def gen_period(rng):
         a = rng.randint(0, U64)
         b = U64 - a + rng.randint(-1, 1)
         return "%ds%ds" % (a, max(b, 0))
-    alphabet = "0123456789smhdwx SMHDW+-._:١٢৬京\t\n"
+    alphabet = "0123456789smhdwx SMHDW+-._:١٢৬京\t\nyYMnuµſｓabcefgijklopqrtvz"
     return "".join(rng.choice(alphabet) for _ in range(rng.randint(0, 8)))
 
 
